@@ -679,7 +679,8 @@ class VhdlScope:
             parent._subscopes.append(self)
 
     def reserve_name(self, name):
-        self._used_names.add(name)
+        # names are compared case insensitive, used_names contains lower case names
+        self._used_names.add(name.lower())
 
     def declare(self, obj, _is_first=True, name_hint=None, *, _obj_only=False):
         type_declared = _obj_only
